@@ -1,1 +1,976 @@
-//! C07 harnesses (not written yet).
+//! C07 — editing operations behave exactly like edits on a list of bits.
+//!
+//! One inductive step per operation from an arbitrary `Inv` pre-state `(len, v)` (so any
+//! sequence of edits follows by induction). The post-state is read from the raw storage
+//! (`into_raw()`: padding bits and spare words included) and compared with the list edit:
+//!
+//!   push(b)        (n+1, v | b<<n)            pop()          (n-1, v mod 2^(n-1)), Some(bit n-1)
+//!   set(i,b)       bit i := b                 truncate(m)    m<n: (m, v mod 2^m)
+//!   resize(m,b)    m<=n: (m, v mod 2^m); m>n: (m, v | b * (2^m - 2^n))
+//!   sign_extend(m) m>n: resize(m, bit n-1 or 0 when empty)
+//!   append(x)      (n+k, v | x<<n)            prepend(x)     (n+k, x | v<<k)
+//!   insert(i,x)    (n+k, v mod 2^i | x<<i | (v>>i)<<(i+k))
+//!   extend(bits)   like append                collect(bits)  (k, bits)
+use crate::big::Big;
+use crate::nd;
+use crate::scopes::*;
+use bva::{Bit, BitVector, Bv, Bvd, Bvf};
+
+#[inline(always)]
+fn one(b: Bit) -> bool {
+    b == Bit::One
+}
+
+#[inline(always)]
+fn bit_of(b: bool) -> Bit {
+    if b {
+        Bit::One
+    } else {
+        Bit::Zero
+    }
+}
+
+/// Bits n..m set (m > n), else zero.
+#[inline(always)]
+fn fill(n: usize, m: usize, b: bool) -> Big {
+    if b {
+        Big::mask(m).and(Big::mask(n).not())
+    } else {
+        Big::ZERO
+    }
+}
+
+/// Replacement for `<[T]>::copy_from_slice` under Kani: CBMC 6.11 mis-models a `memcpy`
+/// of symbolic size over elements wider than one byte (spurious counterexamples in
+/// `Bvf::copy_range`, used by `insert`). Element-wise copy, same panic condition.
+#[cfg(kani)]
+pub fn copy_from_slice_model<T: Copy>(dst: &mut [T], src: &[T]) {
+    assert!(dst.len() == src.len(), "copy_from_slice: source and destination lengths differ");
+    let mut i = 0;
+    while i < dst.len() {
+        dst[i] = src[i];
+        i += 1;
+    }
+}
+
+/// `harness!` plus the `copy_from_slice` stub.
+macro_rules! harness_cfs {
+    ($name:ident, $unw:literal, $body:block) => {
+        #[cfg_attr(kani, kani::proof)]
+        #[cfg_attr(kani, kani::unwind($unw))]
+        #[cfg_attr(kani, kani::stub(<[u64]>::copy_from_slice, copy_from_slice_model))]
+        pub fn $name() $body
+    };
+}
+
+// Witness sets: `sym` for harnesses with symbolic lengths, `con` for concrete lengths
+// (only the contents are symbolic there).
+macro_rules! wit_sym1 {
+    ($ra:ident) => {
+        w!($ra.len == 0, "empty subject");
+        w!($ra.len > 0 && $ra.len % 8 == 0 && $ra.v.bit($ra.len - 1), "subject ends on a byte boundary with its top bit set");
+        w!($ra.len % 8 != 0 && $ra.len > 8, "subject ends inside a byte above byte 0");
+    };
+}
+macro_rules! wit_con1 {
+    ($ra:ident) => {
+        w!($ra.v.is_zero(), "subject all zeros (or empty)");
+        w!($ra.len == 0 || $ra.v.bit($ra.len - 1), "subject empty or top bit set");
+    };
+}
+macro_rules! wit_sym2 {
+    ($ra:ident, $rx:ident) => {
+        w!($rx.len == 0 && $ra.len > 0, "empty operand, non-empty subject");
+        w!($ra.len == 0 && $rx.len > 0, "empty subject, non-empty operand");
+        w!($ra.len % 8 == 0 && $ra.len > 0 && $rx.len % 8 != 0, "subject ends on a byte boundary, operand is not a whole number of bytes");
+        w!($ra.len % 8 != 0 && $rx.len % 8 != 0 && $rx.len > 0 && $rx.v.bit($rx.len - 1), "both unaligned, operand top bit set");
+        w!($ra.len + $rx.len == $ra.cap && $rx.len > 0, "result fills the subject's storage exactly");
+    };
+}
+macro_rules! wit_con2 {
+    ($ra:ident, $rx:ident) => {
+        w!($rx.len == 0 || $rx.v.bit($rx.len - 1), "operand empty or top bit set");
+        w!($ra.len == 0 || $ra.v.bit($ra.len - 1), "subject empty or top bit set");
+        w!($rx.v.is_zero() && $ra.v.is_zero(), "all zeros");
+    };
+}
+
+// ---- push / pop / set ---------------------------------------------------------------------
+
+macro_rules! h_push {
+    ($name:ident, $unw:literal, $a:expr, $max:expr, $wit:ident) => {
+        harness!($name, $unw, {
+            let (mut a, ra) = $a;
+            let n = ra.len;
+            nd::assume(n < $max);
+            $wit!(ra);
+            let b = nd::bit();
+            a.push(b);
+            let r = a.into_raw();
+            assert!(r.len == n + 1, "C07: push: length != len + 1");
+            assert!(r.v == ra.v.or(fill(n, n + 1, one(b))), "C07: push: storage != v | b << len");
+            assert!(r.len <= r.cap, "C07: len > capacity");
+        });
+    };
+}
+
+macro_rules! h_pop {
+    ($name:ident, $unw:literal, $a:expr, $wit:ident) => {
+        harness!($name, $unw, {
+            let (mut a, ra) = $a;
+            let n = ra.len;
+            $wit!(ra);
+            let p = a.pop();
+            let r = a.into_raw();
+            if n == 0 {
+                assert!(p.is_none(), "C07: pop on an empty vector returned a bit");
+                assert!(r == ra, "C07: pop on an empty vector changed it");
+            } else {
+                assert!(p == Some(bit_of(ra.v.bit(n - 1))), "C07: pop did not return the top bit");
+                assert!(r.len == n - 1 && r.v == ra.v.trunc(n - 1), "C07: pop: storage != (len-1, v mod 2^(len-1))");
+                assert!(r.cap == ra.cap, "C07: pop changed the capacity");
+            }
+        });
+    };
+}
+
+macro_rules! h_set {
+    ($name:ident, $unw:literal, $a:expr) => {
+        harness!($name, $unw, {
+            let (mut a, ra) = $a;
+            let n = ra.len;
+            nd::assume(n > 0);
+            let i = nd::upto(n - 1);
+            let b = nd::bit();
+            w!(i == n - 1 && n == ra.cap, "set the top storage bit");
+            w!(i == 0 && n > 1, "set bit 0");
+            w!(one(b) != ra.v.bit(i), "bit changes");
+            w!(one(b) == ra.v.bit(i), "bit keeps its value");
+            a.set(i, b);
+            let r = a.into_raw();
+            let want = ra.v.and(fill(i, i + 1, true).not()).or(fill(i, i + 1, one(b)));
+            assert!(r.len == n && r.v == want, "C07: set: storage != v with bit i replaced");
+            assert!(r.cap == ra.cap, "C07: set changed the capacity");
+        });
+    };
+}
+
+// ---- resize / truncate / sign_extend --------------------------------------------------------
+
+macro_rules! h_resize {
+    ($name:ident, $unw:literal, $a:expr, $m:expr, $wit:ident) => {
+        harness!($name, $unw, {
+            let (mut a, ra) = $a;
+            let n = ra.len;
+            let m: usize = $m;
+            let b = nd::bit();
+            $wit!(ra);
+            w!(one(b), "fill bit is one");
+            a.resize(m, b);
+            let r = a.into_raw();
+            let want = if m <= n { ra.v.trunc(m) } else { ra.v.or(fill(n, m, one(b))) };
+            assert!(r.len == m, "C07: resize: length != new_len");
+            assert!(r.v == want, "C07: resize: storage != truncated / filled value");
+            assert!(r.len <= r.cap, "C07: len > capacity");
+        });
+    };
+}
+
+macro_rules! wit_resize_sym {
+    ($ra:ident, $m:ident) => {
+        w!($m > $ra.len && $ra.len % 8 != 0 && $m > $ra.len + 8, "grow from inside a byte across a byte boundary");
+        w!($m < $ra.len && $m % 8 != 0 && $ra.len > $m + 8, "shrink to inside a byte across a byte boundary");
+        w!($m == $ra.len && $m > 0, "new_len == len");
+        w!($m == 0 && $ra.len > 0, "shrink to empty");
+        w!($m == $ra.cap && $ra.len < $m, "grow to the full storage");
+    };
+}
+
+/// resize with both lengths symbolic (cheap types), extra length witnesses.
+macro_rules! h_resize_sym {
+    ($name:ident, $unw:literal, $a:expr, $max:expr) => {
+        harness!($name, $unw, {
+            let (mut a, ra) = $a;
+            let n = ra.len;
+            let m: usize = nd::upto($max);
+            let b = nd::bit();
+            wit_resize_sym!(ra, m);
+            w!(one(b) && m > n, "grow with ones");
+            a.resize(m, b);
+            let r = a.into_raw();
+            let want = if m <= n { ra.v.trunc(m) } else { ra.v.or(fill(n, m, one(b))) };
+            assert!(r.len == m, "C07: resize: length != new_len");
+            assert!(r.v == want, "C07: resize: storage != truncated / filled value");
+            assert!(r.len <= r.cap, "C07: len > capacity");
+        });
+    };
+}
+
+/// truncate: `m` is any usize when symbolic (values above the capacity are no-ops).
+macro_rules! h_truncate {
+    ($name:ident, $unw:literal, $a:expr, $m:expr, $wit:ident) => {
+        harness!($name, $unw, {
+            let (mut a, ra) = $a;
+            let n = ra.len;
+            let m: usize = $m;
+            $wit!(ra);
+            a.truncate(m);
+            let r = a.into_raw();
+            if m < n {
+                assert!(r.len == m && r.v == ra.v.trunc(m), "C07: truncate: storage != (m, v mod 2^m)");
+            } else {
+                assert!(r.len == n && r.v == ra.v, "C07: truncate with new_len >= len changed the vector");
+            }
+            assert!(r.cap == ra.cap, "C07: truncate changed the capacity");
+        });
+    };
+}
+
+macro_rules! h_truncate_sym {
+    ($name:ident, $unw:literal, $a:expr) => {
+        harness!($name, $unw, {
+            let (mut a, ra) = $a;
+            let n = ra.len;
+            let m: usize = nd::usize();
+            w!(m > ra.cap, "new_len beyond the capacity (no-op)");
+            w!(m == n && n > 0, "new_len == len");
+            w!(m < n && m % 8 != 0 && n > m + 8, "truncate to inside a byte across a byte boundary");
+            w!(m == 0 && n > 0, "truncate to empty");
+            a.truncate(m);
+            let r = a.into_raw();
+            if m < n {
+                assert!(r.len == m && r.v == ra.v.trunc(m), "C07: truncate: storage != (m, v mod 2^m)");
+            } else {
+                assert!(r.len == n && r.v == ra.v, "C07: truncate with new_len >= len changed the vector");
+            }
+            assert!(r.cap == ra.cap, "C07: truncate changed the capacity");
+        });
+    };
+}
+
+macro_rules! h_sign_extend {
+    ($name:ident, $unw:literal, $a:expr, $m:expr, $wit:ident) => {
+        harness!($name, $unw, {
+            let (mut a, ra) = $a;
+            let n = ra.len;
+            let m: usize = $m;
+            $wit!(ra);
+            a.sign_extend(m);
+            let r = a.into_raw();
+            if m > n {
+                let sign = n > 0 && ra.v.bit(n - 1);
+                assert!(r.len == m, "C07: sign_extend: length != new_length");
+                assert!(r.v == ra.v.or(fill(n, m, sign)), "C07: sign_extend: storage != v with the top bit replicated");
+            } else {
+                assert!(r.len == n && r.v == ra.v, "C07: sign_extend with new_length <= len changed the vector");
+            }
+            assert!(r.len <= r.cap, "C07: len > capacity");
+        });
+    };
+}
+
+macro_rules! h_sign_extend_sym {
+    ($name:ident, $unw:literal, $a:expr, $max:expr) => {
+        harness!($name, $unw, {
+            let (mut a, ra) = $a;
+            let n = ra.len;
+            // lengths up to the storage grow; anything not above len (any usize) is a no-op
+            let m: usize = nd::usize();
+            nd::assume(m <= $max || m <= n);
+            w!(m > n && n > 0 && ra.v.bit(n - 1) && m > n + 8, "extends a negative value by more than a byte");
+            w!(m > n && n > 0 && !ra.v.bit(n - 1), "extends a non-negative value");
+            w!(m > n && n == 0, "extends an empty vector (with zeros)");
+            w!(m < n, "new_length < len (no-op)");
+            w!(m == ra.cap && n < m && n % 8 != 0, "extends to the full storage from inside a byte");
+            a.sign_extend(m);
+            let r = a.into_raw();
+            if m > n {
+                let sign = n > 0 && ra.v.bit(n - 1);
+                assert!(r.len == m, "C07: sign_extend: length != new_length");
+                assert!(r.v == ra.v.or(fill(n, m, sign)), "C07: sign_extend: storage != v with the top bit replicated");
+            } else {
+                assert!(r.len == n && r.v == ra.v, "C07: sign_extend with new_length <= len changed the vector");
+            }
+            assert!(r.len <= r.cap, "C07: len > capacity");
+        });
+    };
+}
+
+// ---- append / prepend / insert -------------------------------------------------------------
+
+macro_rules! h_append {
+    ($name:ident, $unw:literal, $a:expr, $x:expr, $max:expr, $wit:ident) => {
+        harness!($name, $unw, {
+            let (mut a, ra) = $a;
+            let (x, rx) = $x;
+            let n = ra.len;
+            let k = rx.len;
+            nd::assume(n + k <= $max);
+            $wit!(ra, rx);
+            a.append(&x);
+            let r = a.into_raw();
+            assert!(r.len == n + k, "C07: append: length != len + len(suffix)");
+            assert!(r.v == ra.v.or(rx.v.shl(n)), "C07: append: storage != v | x << len");
+            assert!(r.len <= r.cap, "C07: len > capacity");
+            assert!(x.into_raw() == rx, "C07: append modified its argument");
+        });
+    };
+}
+
+macro_rules! h_prepend {
+    ($name:ident, $unw:literal, $a:expr, $x:expr, $max:expr, $wit:ident) => {
+        harness!($name, $unw, {
+            let (mut a, ra) = $a;
+            let (x, rx) = $x;
+            let n = ra.len;
+            let k = rx.len;
+            nd::assume(n + k <= $max);
+            $wit!(ra, rx);
+            a.prepend(&x);
+            let r = a.into_raw();
+            assert!(r.len == n + k, "C07: prepend: length != len + len(prefix)");
+            assert!(r.v == rx.v.or(ra.v.shl(k)), "C07: prepend: storage != x | v << len(x)");
+            assert!(r.len <= r.cap, "C07: len > capacity");
+            assert!(x.into_raw() == rx, "C07: prepend modified its argument");
+        });
+    };
+}
+
+macro_rules! wit_ins_sym {
+    ($ra:ident, $rx:ident, $i:ident) => {
+        w!($i == 0 && $ra.len > 0 && $rx.len > 0, "insert at 0 (= prepend)");
+        w!($i == $ra.len && $ra.len > 0 && $rx.len > 0, "insert at len (= append)");
+        w!($i > 0 && $i < $ra.len && $rx.len == 0, "empty infix in the middle");
+        w!($i > 0 && $i < $ra.len && $i % 8 != 0 && $rx.len % 8 != 0 && $rx.len > 0 && $ra.v.bit($ra.len - 1), "unaligned index and infix, subject top bit set");
+        w!($i > 0 && $i < $ra.len && $ra.len + $rx.len == $ra.cap && $rx.len > 0, "result fills the subject's storage exactly");
+    };
+}
+macro_rules! wit_ins_con {
+    ($ra:ident, $rx:ident, $i:ident) => {
+        w!($rx.len == 0 || $rx.v.bit($rx.len - 1), "infix empty or top bit set");
+        w!($ra.len == 0 || $ra.v.bit($ra.len - 1), "subject empty or top bit set");
+        w!($rx.v.is_zero() && !$ra.v.is_zero(), "zero infix, non-zero subject");
+    };
+}
+
+macro_rules! h_insert {
+    ($name:ident, $unw:literal, $a:expr, $i:expr, $x:expr, $max:expr, $wit:ident) => {
+        harness_cfs!($name, $unw, {
+            let (mut a, ra) = $a;
+            let (x, rx) = $x;
+            let n = ra.len;
+            let k = rx.len;
+            nd::assume(n + k <= $max);
+            let i: usize = $i;
+            nd::assume(i <= n);
+            $wit!(ra, rx, i);
+            a.insert(i, &x);
+            let r = a.into_raw();
+            let want = ra.v.trunc(i).or(rx.v.shl(i)).or(ra.v.shr(i).shl(i + k));
+            assert!(r.len == n + k, "C07: insert: length != len + len(infix)");
+            assert!(r.v == want, "C07: insert: storage != low | x << i | high << (i + len(x))");
+            assert!(r.len <= r.cap, "C07: len > capacity");
+            assert!(x.into_raw() == rx, "C07: insert modified its argument");
+        });
+    };
+}
+
+// ---- extend / collect -----------------------------------------------------------------------
+
+/// `K` symbolic bits as an array (bit j of the model value = element j).
+macro_rules! bits_array {
+    ($k:literal) => {{
+        let raw = nd::u8();
+        let all: [Bit; 8] = [
+            bit_of(raw & 1 != 0),
+            bit_of(raw & 2 != 0),
+            bit_of(raw & 4 != 0),
+            bit_of(raw & 8 != 0),
+            bit_of(raw & 16 != 0),
+            bit_of(raw & 32 != 0),
+            bit_of(raw & 64 != 0),
+            bit_of(raw & 128 != 0),
+        ];
+        (all, Big::lo(raw as u128).trunc($k))
+    }};
+}
+
+/// extend from a slice iterator over `K` (concrete) symbolic bits.
+macro_rules! h_extend_bits {
+    ($name:ident, $unw:literal, $a:expr, $k:literal, $max:expr, $wit:ident) => {
+        harness!($name, $unw, {
+            let (mut a, ra) = $a;
+            let n = ra.len;
+            nd::assume(n + $k <= $max);
+            let (bits, bv) = bits_array!($k);
+            $wit!(ra);
+            w!($k == 0 || bv.bit($k - 1), "no bits, or last bit pushed is one");
+            a.extend(bits[..$k].iter().copied());
+            let r = a.into_raw();
+            assert!(r.len == n + $k, "C07: extend: length != len + number of bits");
+            assert!(r.v == ra.v.or(bv.shl(n)), "C07: extend: storage != v | bits << len");
+            assert!(r.len <= r.cap, "C07: len > capacity");
+        });
+    };
+}
+
+/// extend from the bit iterator of another vector.
+macro_rules! h_extend_iter {
+    ($name:ident, $unw:literal, $a:expr, $x:expr, $max:expr, $wit:ident) => {
+        harness!($name, $unw, {
+            let (mut a, ra) = $a;
+            let (x, rx) = $x;
+            let n = ra.len;
+            let k = rx.len;
+            nd::assume(n + k <= $max);
+            $wit!(ra, rx);
+            a.extend(x.iter());
+            let r = a.into_raw();
+            assert!(r.len == n + k, "C07: extend: length != len + number of bits");
+            assert!(r.v == ra.v.or(rx.v.shl(n)), "C07: extend: storage != v | bits << len");
+            assert!(r.len <= r.cap, "C07: len > capacity");
+            assert!(x.into_raw() == rx, "C07: extend modified the iterated vector");
+        });
+    };
+}
+
+macro_rules! h_collect_bits {
+    ($name:ident, $unw:literal, $T:ty, $k:literal) => {
+        harness!($name, $unw, {
+            let (bits, bv) = bits_array!($k);
+            w!($k == 0 || bv.bit($k - 1), "no bits, or last bit is one");
+            w!($k == 0 || !bv.bit(0), "no bits, or first bit is zero");
+            let c: $T = bits[..$k].iter().copied().collect();
+            let r = c.into_raw();
+            assert!(r.len == $k, "C07: collect: length != number of bits");
+            assert!(r.v == bv, "C07: collect: storage != the bits in order");
+            assert!(r.len <= r.cap, "C07: len > capacity");
+        });
+    };
+}
+
+macro_rules! h_collect_iter {
+    ($name:ident, $unw:literal, $T:ty, $x:expr) => {
+        harness!($name, $unw, {
+            let (x, rx) = $x;
+            w!(rx.len == 0 || rx.v.bit(rx.len - 1), "source empty or top bit set");
+            w!(rx.len > 1 && !rx.v.bit(0) && rx.v.bit(1), "bits 0 and 1 differ");
+            let c: $T = x.iter().collect();
+            let r = c.into_raw();
+            assert!(r.len == rx.len, "C07: collect: length != number of bits");
+            assert!(r.v == rx.v, "C07: collect: storage != the bits in order");
+            assert!(r.len <= r.cap, "C07: len > capacity");
+            assert!(x.into_raw() == rx, "C07: collect modified the iterated vector");
+        });
+    };
+}
+
+// =============================================================================================
+// Bvf subjects (and `Bv` operations that never allocate): lengths, indices and contents
+// symbolic; growth is assumed to stay within the capacity (the overflow side is C19).
+// =============================================================================================
+h_push!(c07_q_push_f8x2, 3, f8x2(anylen(16)), 16, wit_sym1);
+h_pop!(c07_q_pop_f8x2, 3, f8x2(anylen(16)), wit_sym1);
+h_set!(c07_q_set_f8x2, 3, f8x2(anylen(16)));
+h_resize_sym!(c07_q_resize_f8x2, 4, f8x2(anylen(16)), 16);
+h_truncate_sym!(c07_q_truncate_f8x2, 4, f8x2(anylen(16)));
+h_sign_extend_sym!(c07_q_signext_f8x2, 4, f8x2(anylen(16)), 16);
+h_push!(c07_q_push_f8x3, 3, f8x3(anylen(24)), 24, wit_sym1);
+h_pop!(c07_q_pop_f8x3, 3, f8x3(anylen(24)), wit_sym1);
+h_set!(c07_q_set_f8x3, 3, f8x3(anylen(24)));
+h_resize_sym!(c07_q_resize_f8x3, 5, f8x3(anylen(24)), 24);
+h_truncate_sym!(c07_q_truncate_f8x3, 5, f8x3(anylen(24)));
+h_sign_extend_sym!(c07_q_signext_f8x3, 5, f8x3(anylen(24)), 24);
+h_push!(c07_q_push_f16x2, 3, f16x2(anylen(32)), 32, wit_sym1);
+h_pop!(c07_q_pop_f16x2, 3, f16x2(anylen(32)), wit_sym1);
+h_set!(c07_q_set_f16x2, 3, f16x2(anylen(32)));
+h_resize_sym!(c07_q_resize_f16x2, 4, f16x2(anylen(32)), 32);
+h_truncate_sym!(c07_q_truncate_f16x2, 4, f16x2(anylen(32)));
+h_sign_extend_sym!(c07_q_signext_f16x2, 4, f16x2(anylen(32)), 32);
+h_push!(c07_q_push_f64x2, 3, f64x2(anylen(128)), 128, wit_sym1);
+h_pop!(c07_q_pop_f64x2, 3, f64x2(anylen(128)), wit_sym1);
+h_set!(c07_q_set_f64x2, 3, f64x2(anylen(128)));
+h_resize_sym!(c07_q_resize_f64x2, 4, f64x2(anylen(128)), 128);
+h_truncate_sym!(c07_q_truncate_f64x2, 4, f64x2(anylen(128)));
+h_sign_extend_sym!(c07_q_signext_f64x2, 4, f64x2(anylen(128)), 128);
+h_push!(c07_t_push_f8x4, 3, f8x4(anylen(32)), 32, wit_sym1);
+h_pop!(c07_t_pop_f8x4, 3, f8x4(anylen(32)), wit_sym1);
+h_set!(c07_t_set_f8x4, 3, f8x4(anylen(32)));
+h_resize_sym!(c07_t_resize_f8x4, 6, f8x4(anylen(32)), 32);
+h_truncate_sym!(c07_t_truncate_f8x4, 6, f8x4(anylen(32)));
+h_sign_extend_sym!(c07_t_signext_f8x4, 6, f8x4(anylen(32)), 32);
+h_push!(c07_t_push_f32x2, 3, f32x2(anylen(64)), 64, wit_sym1);
+h_pop!(c07_t_pop_f32x2, 3, f32x2(anylen(64)), wit_sym1);
+h_set!(c07_t_set_f32x2, 3, f32x2(anylen(64)));
+h_resize_sym!(c07_t_resize_f32x2, 4, f32x2(anylen(64)), 64);
+h_truncate_sym!(c07_t_truncate_f32x2, 4, f32x2(anylen(64)));
+h_sign_extend_sym!(c07_t_signext_f32x2, 4, f32x2(anylen(64)), 64);
+h_push!(c07_t_push_f64x3, 3, f64x3(anylen(192)), 192, wit_sym1);
+h_pop!(c07_t_pop_f64x3, 3, f64x3(anylen(192)), wit_sym1);
+h_set!(c07_t_set_f64x3, 3, f64x3(anylen(192)));
+h_resize_sym!(c07_t_resize_f64x3, 5, f64x3(anylen(192)), 192);
+h_truncate_sym!(c07_t_truncate_f64x3, 5, f64x3(anylen(192)));
+h_sign_extend_sym!(c07_t_signext_f64x3, 5, f64x3(anylen(192)), 192);
+h_push!(c07_t_push_fuszx2, 3, fuszx2(anylen(128)), 128, wit_sym1);
+h_pop!(c07_t_pop_fuszx2, 3, fuszx2(anylen(128)), wit_sym1);
+h_set!(c07_t_set_fuszx2, 3, fuszx2(anylen(128)));
+h_resize_sym!(c07_t_resize_fuszx2, 4, fuszx2(anylen(128)), 128);
+h_truncate_sym!(c07_t_truncate_fuszx2, 4, fuszx2(anylen(128)));
+h_sign_extend_sym!(c07_t_signext_fuszx2, 4, fuszx2(anylen(128)), 128);
+h_push!(c07_t_push_f128x2, 3, f128x2(anylen(256)), 256, wit_sym1);
+h_pop!(c07_t_pop_f128x2, 3, f128x2(anylen(256)), wit_sym1);
+h_set!(c07_t_set_f128x2, 3, f128x2(anylen(256)));
+h_resize_sym!(c07_t_resize_f128x2, 4, f128x2(anylen(256)), 256);
+h_truncate_sym!(c07_t_truncate_f128x2, 4, f128x2(anylen(256)));
+h_sign_extend_sym!(c07_t_signext_f128x2, 4, f128x2(anylen(256)), 256);
+
+h_append!(c07_q_append_f8x2_f8x2, 7, f8x2(anylen(16)), f8x2(anylen(16)), 16, wit_sym2);
+h_append!(c07_q_append_f8x2_f8x1, 7, f8x2(anylen(16)), f8x1(anylen(8)), 16, wit_sym2);
+h_append!(c07_q_append_f8x2_f16x1, 7, f8x2(anylen(16)), f16x1(anylen(16)), 16, wit_sym2);
+h_append!(c07_q_append_f8x2_f64x2, 7, f8x2(anylen(16)), f64x2(anylen(16)), 16, wit_sym2);
+h_append!(c07_q_append_f8x2_bvd1, 7, f8x2(anylen(16)), bvd1(anylen(16)), 16, wit_sym2);
+h_append!(c07_q_append_f8x2_bvfix, 7, f8x2(anylen(16)), bvfix(anylen(16)), 16, wit_sym2);
+h_append!(c07_q_append_f8x2_bvdyn2, 7, f8x2(anylen(16)), bvdyn2(anylen(16)), 16, wit_sym2);
+h_append!(c07_q_append_f8x3_f8x2, 9, f8x3(anylen(24)), f8x2(anylen(16)), 24, wit_sym2);
+h_append!(c07_q_append_f8x3_f16x2, 9, f8x3(anylen(24)), f16x2(anylen(24)), 24, wit_sym2);
+h_append!(c07_q_append_f8x3_bvd2, 9, f8x3(anylen(24)), bvd2(anylen(24)), 24, wit_sym2);
+h_append!(c07_q_append_f16x2_f8x3, 7, f16x2(anylen(32)), f8x3(anylen(24)), 32, wit_sym2);
+h_append!(c07_q_append_f16x2_f16x2, 7, f16x2(anylen(32)), f16x2(anylen(32)), 32, wit_sym2);
+h_append!(c07_q_append_f16x2_bvd1, 7, f16x2(anylen(32)), bvd1(anylen(32)), 32, wit_sym2);
+h_append!(c07_q_append_f64x2_f8x3, 7, f64x2(anylen(128)), f8x3(anylen(24)), 128, wit_sym2);
+h_append!(c07_t_append_f64x2_f64x2, 19, f64x2(anylen(128)), f64x2(anylen(128)), 128, wit_sym2);
+h_append!(c07_t_append_f64x2_bvd2, 19, f64x2(anylen(128)), bvd2(anylen(128)), 128, wit_sym2);
+h_append!(c07_t_append_f64x2_bvdyn3, 19, f64x2(anylen(128)), bvdyn3(anylen(128)), 128, wit_sym2);
+h_append!(c07_t_append_f64x2_f16x2, 7, f64x2(anylen(128)), f16x2(anylen(32)), 128, wit_sym2);
+h_append!(c07_t_append_f8x3_f8x3, 9, f8x3(anylen(24)), f8x3(anylen(24)), 24, wit_sym2);
+h_append!(c07_t_append_f16x2_f64x2, 7, f16x2(anylen(32)), f64x2(anylen(32)), 32, wit_sym2);
+h_append!(c07_t_append_f8x4_f8x2, 11, f8x4(anylen(32)), f8x2(anylen(16)), 32, wit_sym2);
+h_append!(c07_t_append_f32x2_f8x3, 7, f32x2(anylen(64)), f8x3(anylen(24)), 64, wit_sym2);
+
+h_prepend!(c07_q_prepend_f8x2_f8x2, 8, f8x2(anylen(16)), f8x2(anylen(16)), 16, wit_sym2);
+h_prepend!(c07_q_prepend_f8x2_f64x2, 8, f8x2(anylen(16)), f64x2(anylen(16)), 16, wit_sym2);
+h_prepend!(c07_q_prepend_f8x2_bvd1, 8, f8x2(anylen(16)), bvd1(anylen(16)), 16, wit_sym2);
+h_prepend!(c07_q_prepend_f8x2_bvfix, 8, f8x2(anylen(16)), bvfix(anylen(16)), 16, wit_sym2);
+h_prepend!(c07_q_prepend_f8x3_f8x2, 10, f8x3(anylen(24)), f8x2(anylen(16)), 24, wit_sym2);
+h_prepend!(c07_q_prepend_f8x3_bvdyn2, 10, f8x3(anylen(24)), bvdyn2(anylen(24)), 24, wit_sym2);
+h_prepend!(c07_q_prepend_f16x2_f8x3, 8, f16x2(anylen(32)), f8x3(anylen(24)), 32, wit_sym2);
+h_prepend!(c07_q_prepend_f16x2_f16x2, 8, f16x2(anylen(32)), f16x2(anylen(32)), 32, wit_sym2);
+h_prepend!(c07_q_prepend_f64x2_f8x3, 8, f64x2(anylen(128)), f8x3(anylen(24)), 128, wit_sym2);
+h_prepend!(c07_t_prepend_f64x2_f64x2, 20, f64x2(anylen(128)), f64x2(anylen(128)), 128, wit_sym2);
+h_prepend!(c07_t_prepend_f64x2_bvd2, 20, f64x2(anylen(128)), bvd2(anylen(128)), 128, wit_sym2);
+h_prepend!(c07_t_prepend_f8x3_f16x2, 10, f8x3(anylen(24)), f16x2(anylen(24)), 24, wit_sym2);
+h_prepend!(c07_t_prepend_f8x2_bvdyn2, 8, f8x2(anylen(16)), bvdyn2(anylen(16)), 16, wit_sym2);
+h_prepend!(c07_t_prepend_f8x4_f8x2, 12, f8x4(anylen(32)), f8x2(anylen(16)), 32, wit_sym2);
+h_prepend!(c07_t_prepend_f32x2_f8x3, 8, f32x2(anylen(64)), f8x3(anylen(24)), 64, wit_sym2);
+
+h_insert!(c07_q_insert_f8x2_f8x2, 8, f8x2(anylen(16)), nd::usize(), f8x2(anylen(16)), 16, wit_ins_sym);
+h_insert!(c07_q_insert_f8x2_bvd1, 8, f8x2(anylen(16)), nd::usize(), bvd1(anylen(16)), 16, wit_ins_sym);
+h_insert!(c07_q_insert_f8x2_bvfix, 8, f8x2(anylen(16)), nd::usize(), bvfix(anylen(16)), 16, wit_ins_sym);
+h_insert!(c07_q_insert_f8x3_f8x2, 10, f8x3(anylen(24)), nd::usize(), f8x2(anylen(16)), 24, wit_ins_sym);
+h_insert!(c07_q_insert_f16x2_f8x3, 8, f16x2(anylen(32)), nd::usize(), f8x3(anylen(24)), 32, wit_ins_sym);
+h_insert!(c07_t_insert_f64x2_f8x3, 8, f64x2(anylen(128)), nd::usize(), f8x3(anylen(24)), 128, wit_ins_sym);
+h_insert!(c07_t_insert_f64x2_f64x2, 20, f64x2(anylen(128)), nd::usize(), f64x2(anylen(128)), 128, wit_ins_sym);
+h_insert!(c07_t_insert_f8x3_f16x2, 10, f8x3(anylen(24)), nd::usize(), f16x2(anylen(24)), 24, wit_ins_sym);
+h_insert!(c07_t_insert_f16x2_bvd1, 8, f16x2(anylen(32)), nd::usize(), bvd1(anylen(32)), 32, wit_ins_sym);
+h_insert!(c07_t_insert_f8x2_f64x2, 8, f8x2(anylen(16)), nd::usize(), f64x2(anylen(16)), 16, wit_ins_sym);
+h_insert!(c07_t_insert_f8x3_bvdyn2, 10, f8x3(anylen(24)), nd::usize(), bvdyn2(anylen(24)), 24, wit_ins_sym);
+
+h_extend_bits!(c07_q_extend_f8x2_k0, 3, f8x2(anylen(16)), 0, 16, wit_sym1);
+h_extend_bits!(c07_q_extend_f8x2_k1, 4, f8x2(anylen(16)), 1, 16, wit_sym1);
+h_extend_bits!(c07_q_extend_f8x2_k5, 8, f8x2(anylen(16)), 5, 16, wit_sym1);
+h_extend_bits!(c07_q_extend_f8x2_k8, 11, f8x2(anylen(16)), 8, 16, wit_sym1);
+h_extend_bits!(c07_q_extend_f8x3_k8, 11, f8x3(anylen(24)), 8, 24, wit_sym1);
+h_extend_bits!(c07_q_extend_f16x2_k3, 6, f16x2(anylen(32)), 3, 32, wit_sym1);
+h_extend_bits!(c07_q_extend_f64x2_k8, 11, f64x2(anylen(128)), 8, 128, wit_sym1);
+h_extend_bits!(c07_t_extend_f64x3_k7, 10, f64x3(anylen(192)), 7, 192, wit_sym1);
+h_extend_bits!(c07_t_extend_f128x2_k8, 11, f128x2(anylen(256)), 8, 256, wit_sym1);
+h_extend_iter!(c07_q_extend_f8x2_f8x1, 11, f8x2(anylen(16)), f8x1(anylen(8)), 16, wit_sym2);
+h_extend_iter!(c07_q_extend_f16x2_bvd1, 19, f16x2(anylen(32)), bvd1(anylen(16)), 32, wit_sym2);
+h_extend_iter!(c07_q_extend_f64x2_f8x2, 19, f64x2(anylen(128)), f8x2(anylen(16)), 128, wit_sym2);
+h_extend_iter!(c07_q_extend_f8x2_bvfix, 19, f8x2(anylen(16)), bvfix(anylen(16)), 16, wit_sym2);
+h_extend_iter!(c07_t_extend_f8x3_f16x1, 19, f8x3(anylen(24)), f16x1(anylen(16)), 24, wit_sym2);
+h_extend_iter!(c07_t_extend_f8x3_bvdyn2, 27, f8x3(anylen(24)), bvdyn2(anylen(24)), 24, wit_sym2);
+h_collect_bits!(c07_q_collect_f8x2_k0, 3, Bvf<u8, 2>, 0);
+h_collect_bits!(c07_q_collect_f8x2_k4, 7, Bvf<u8, 2>, 4);
+h_collect_bits!(c07_q_collect_f8x2_k8, 11, Bvf<u8, 2>, 8);
+h_collect_bits!(c07_q_collect_f16x2_k8, 11, Bvf<u16, 2>, 8);
+h_collect_bits!(c07_q_collect_f64x2_k8, 11, Bvf<u64, 2>, 8);
+h_collect_bits!(c07_q_collect_f8x3_k7, 10, Bvf<u8, 3>, 7);
+h_collect_bits!(c07_q_collect_bvd_k0, 3, Bvd, 0);
+h_collect_bits!(c07_q_collect_bvd_k4, 7, Bvd, 4);
+h_collect_bits!(c07_q_collect_bvd_k8, 11, Bvd, 8);
+h_collect_bits!(c07_q_collect_bv_k0, 3, Bv, 0);
+h_collect_bits!(c07_q_collect_bv_k8, 11, Bv, 8);
+h_collect_iter!(c07_q_collect_f8x2_f8x1, 11, Bvf<u8, 2>, f8x1(anylen(8)));
+h_collect_iter!(c07_q_collect_f64x2_f8x2, 19, Bvf<u64, 2>, f8x2(anylen(16)));
+h_collect_iter!(c07_q_collect_f8x2_bvd1, 19, Bvf<u8, 2>, bvd1(anylen(16)));
+h_collect_iter!(c07_t_collect_f8x3_f16x1, 19, Bvf<u8, 3>, f16x1(anylen(16)));
+h_collect_iter!(c07_t_collect_f16x2_bvfix, 35, Bvf<u16, 2>, bvfix(anylen(32)));
+h_collect_iter!(c07_q_collect_bvd_f8x2n13, 16, Bvd, f8x2(13));
+h_collect_iter!(c07_q_collect_bv_f8x2n9, 12, Bv, f8x2(9));
+h_collect_iter!(c07_t_collect_bvd_f16x2n20, 23, Bvd, f16x2(20));
+h_collect_iter!(c07_t_collect_bvd_bvd2n66, 69, Bvd, bvd2(66));
+
+// pop / set never allocate: symbolic lengths also on the heap types
+h_pop!(c07_q_pop_bvd1, 3, bvd1(anylen(64)), wit_sym1);
+h_pop!(c07_q_pop_bvd2, 3, bvd2(anylen(128)), wit_sym1);
+h_pop!(c07_q_pop_bvd3, 3, bvd3(anylen(192)), wit_sym1);
+h_pop!(c07_q_pop_bvfix, 3, bvfix(anylen(128)), wit_sym1);
+h_pop!(c07_q_pop_bvdyn2, 3, bvdyn2(anylen(128)), wit_sym1);
+h_pop!(c07_q_pop_bvdyn3, 3, bvdyn3(anylen(192)), wit_sym1);
+h_pop!(c07_t_pop_bvd4, 3, bvd4(anylen(256)), wit_sym1);
+h_pop!(c07_t_pop_bvdyn1, 3, bvdyn1(anylen(64)), wit_sym1);
+h_set!(c07_q_set_bvd2, 3, bvd2(anylen(128)));
+h_set!(c07_q_set_bvd3, 3, bvd3(anylen(192)));
+h_set!(c07_q_set_bvfix, 3, bvfix(anylen(128)));
+h_set!(c07_q_set_bvdyn3, 3, bvdyn3(anylen(192)));
+h_set!(c07_t_set_bvd1, 3, bvd1(anylen(64)));
+h_set!(c07_t_set_bvd4, 3, bvd4(anylen(256)));
+h_set!(c07_t_set_bvdyn2, 3, bvdyn2(anylen(128)));
+
+// =============================================================================================
+// Bvd and Bv subjects for operations that may (re)allocate: CBMC needs syntactically constant
+// allocation sizes, so the lengths are a concrete lattice around the 64-bit word boundaries,
+// the inline limit (128) and the reallocation points; contents, fill bits and operand
+// contents are symbolic. `bvdW(n)` has exactly W allocated words (spare words when n is
+// small); `bvfix` = inline `Bv`, `bvdynW` = heap `Bv`.
+// =============================================================================================
+h_push!(c07_q_push_bvd0n0, 6, bvd0(0), 256, wit_con1);
+h_push!(c07_q_push_bvd1n0, 6, bvd1(0), 256, wit_con1);
+h_push!(c07_q_push_bvd1n63, 6, bvd1(63), 256, wit_con1);
+h_push!(c07_q_push_bvd1n64, 6, bvd1(64), 256, wit_con1);
+h_push!(c07_q_push_bvd2n64, 6, bvd2(64), 256, wit_con1);
+h_push!(c07_q_push_bvd2n127, 6, bvd2(127), 256, wit_con1);
+h_push!(c07_q_push_bvd2n128, 6, bvd2(128), 256, wit_con1);
+h_push!(c07_q_push_bvd3n100, 6, bvd3(100), 256, wit_con1);
+h_push!(c07_q_push_bvd3n192, 6, bvd3(192), 256, wit_con1);
+h_push!(c07_q_push_bvfixn0, 6, bvfix(0), 256, wit_con1);
+h_push!(c07_q_push_bvfixn127, 6, bvfix(127), 256, wit_con1);
+h_push!(c07_q_push_bvfixn128, 6, bvfix(128), 256, wit_con1);
+h_push!(c07_q_push_bvdyn2n100, 6, bvdyn2(100), 256, wit_con1);
+h_push!(c07_q_push_bvdyn3n129, 6, bvdyn3(129), 256, wit_con1);
+h_push!(c07_t_push_bvd1n1, 6, bvd1(1), 256, wit_con1);
+h_push!(c07_t_push_bvd2n0, 6, bvd2(0), 256, wit_con1);
+h_push!(c07_t_push_bvd3n191, 6, bvd3(191), 256, wit_con1);
+h_push!(c07_t_push_bvfixn64, 6, bvfix(64), 256, wit_con1);
+h_push!(c07_t_push_bvdyn1n10, 6, bvdyn1(10), 256, wit_con1);
+h_push!(c07_t_push_bvdyn3n191, 6, bvdyn3(191), 256, wit_con1);
+
+h_resize!(c07_q_resize_bvd1n0_m0, 7, bvd1(0), 0, wit_con1);
+h_resize!(c07_q_resize_bvd1n0_m1, 7, bvd1(0), 1, wit_con1);
+h_resize!(c07_q_resize_bvd1n0_m64, 7, bvd1(0), 64, wit_con1);
+h_resize!(c07_q_resize_bvd1n0_m65, 7, bvd1(0), 65, wit_con1);
+h_resize!(c07_q_resize_bvd1n5_m64, 7, bvd1(5), 64, wit_con1);
+h_resize!(c07_q_resize_bvd1n60_m130, 7, bvd1(60), 130, wit_con1);
+h_resize!(c07_q_resize_bvd1n64_m65, 7, bvd1(64), 65, wit_con1);
+h_resize!(c07_q_resize_bvd1n64_m128, 7, bvd1(64), 128, wit_con1);
+h_resize!(c07_q_resize_bvd1n63_m64, 7, bvd1(63), 64, wit_con1);
+h_resize!(c07_q_resize_bvd1n64_m0, 7, bvd1(64), 0, wit_con1);
+h_resize!(c07_q_resize_bvd1n64_m63, 7, bvd1(64), 63, wit_con1);
+h_resize!(c07_q_resize_bvd1n30_m7, 7, bvd1(30), 7, wit_con1);
+h_resize!(c07_q_resize_bvd2n64_m128, 7, bvd2(64), 128, wit_con1);
+h_resize!(c07_q_resize_bvd2n65_m64, 7, bvd2(65), 64, wit_con1);
+h_resize!(c07_q_resize_bvd2n128_m129, 7, bvd2(128), 129, wit_con1);
+h_resize!(c07_q_resize_bvd2n128_m192, 7, bvd2(128), 192, wit_con1);
+h_resize!(c07_q_resize_bvd2n100_m30, 7, bvd2(100), 30, wit_con1);
+h_resize!(c07_q_resize_bvd2n128_m0, 7, bvd2(128), 0, wit_con1);
+h_resize!(c07_q_resize_bvd2n70_m64, 7, bvd2(70), 64, wit_con1);
+h_resize!(c07_q_resize_bvd3n130_m60, 7, bvd3(130), 60, wit_con1);
+h_resize!(c07_q_resize_bvd3n192_m1, 7, bvd3(192), 1, wit_con1);
+h_resize!(c07_q_resize_bvd3n10_m192, 7, bvd3(10), 192, wit_con1);
+h_resize!(c07_q_resize_bvd3n129_m128, 7, bvd3(129), 128, wit_con1);
+h_resize!(c07_q_resize_bvd3n64_m192, 7, bvd3(64), 192, wit_con1);
+h_resize!(c07_q_resize_bvd0n0_m0, 7, bvd0(0), 0, wit_con1);
+h_resize!(c07_q_resize_bvd0n0_m70, 7, bvd0(0), 70, wit_con1);
+h_resize!(c07_q_resize_bvfixn0_m128, 7, bvfix(0), 128, wit_con1);
+h_resize!(c07_q_resize_bvfixn100_m128, 7, bvfix(100), 128, wit_con1);
+h_resize!(c07_q_resize_bvfixn128_m129, 7, bvfix(128), 129, wit_con1);
+h_resize!(c07_q_resize_bvfixn0_m129, 7, bvfix(0), 129, wit_con1);
+h_resize!(c07_q_resize_bvfixn5_m192, 7, bvfix(5), 192, wit_con1);
+h_resize!(c07_q_resize_bvfixn128_m0, 7, bvfix(128), 0, wit_con1);
+h_resize!(c07_q_resize_bvfixn128_m127, 7, bvfix(128), 127, wit_con1);
+h_resize!(c07_q_resize_bvfixn64_m64, 7, bvfix(64), 64, wit_con1);
+h_resize!(c07_q_resize_bvfixn100_m130, 7, bvfix(100), 130, wit_con1);
+h_resize!(c07_q_resize_bvdyn2n100_m50, 7, bvdyn2(100), 50, wit_con1);
+h_resize!(c07_q_resize_bvdyn2n50_m128, 7, bvdyn2(50), 128, wit_con1);
+h_resize!(c07_q_resize_bvdyn3n192_m0, 7, bvdyn3(192), 0, wit_con1);
+h_resize!(c07_q_resize_bvdyn3n130_m128, 7, bvdyn3(130), 128, wit_con1);
+h_resize!(c07_q_resize_bvdyn3n129_m192, 7, bvdyn3(129), 192, wit_con1);
+h_resize!(c07_t_resize_bvd1n0_m63, 7, bvd1(0), 63, wit_con1);
+h_resize!(c07_t_resize_bvd1n0_m127, 7, bvd1(0), 127, wit_con1);
+h_resize!(c07_t_resize_bvd1n0_m128, 7, bvd1(0), 128, wit_con1);
+h_resize!(c07_t_resize_bvd1n0_m129, 7, bvd1(0), 129, wit_con1);
+h_resize!(c07_t_resize_bvd1n0_m192, 7, bvd1(0), 192, wit_con1);
+h_resize!(c07_t_resize_bvd1n1_m0, 7, bvd1(1), 0, wit_con1);
+h_resize!(c07_t_resize_bvd1n1_m1, 7, bvd1(1), 1, wit_con1);
+h_resize!(c07_t_resize_bvd1n1_m63, 7, bvd1(1), 63, wit_con1);
+h_resize!(c07_t_resize_bvd1n1_m64, 7, bvd1(1), 64, wit_con1);
+h_resize!(c07_t_resize_bvd1n1_m65, 7, bvd1(1), 65, wit_con1);
+h_resize!(c07_t_resize_bvd1n1_m127, 7, bvd1(1), 127, wit_con1);
+h_resize!(c07_t_resize_bvd1n1_m128, 7, bvd1(1), 128, wit_con1);
+h_resize!(c07_t_resize_bvd1n1_m129, 7, bvd1(1), 129, wit_con1);
+h_resize!(c07_t_resize_bvd1n1_m192, 7, bvd1(1), 192, wit_con1);
+h_resize!(c07_t_resize_bvd1n63_m0, 7, bvd1(63), 0, wit_con1);
+h_resize!(c07_t_resize_bvd1n63_m1, 7, bvd1(63), 1, wit_con1);
+h_resize!(c07_t_resize_bvd1n63_m63, 7, bvd1(63), 63, wit_con1);
+h_resize!(c07_t_resize_bvd1n63_m65, 7, bvd1(63), 65, wit_con1);
+h_resize!(c07_t_resize_bvd1n63_m127, 7, bvd1(63), 127, wit_con1);
+h_resize!(c07_t_resize_bvd1n63_m128, 7, bvd1(63), 128, wit_con1);
+h_resize!(c07_t_resize_bvd1n63_m129, 7, bvd1(63), 129, wit_con1);
+h_resize!(c07_t_resize_bvd1n63_m192, 7, bvd1(63), 192, wit_con1);
+h_resize!(c07_t_resize_bvd1n64_m1, 7, bvd1(64), 1, wit_con1);
+h_resize!(c07_t_resize_bvd1n64_m64, 7, bvd1(64), 64, wit_con1);
+h_resize!(c07_t_resize_bvd1n64_m127, 7, bvd1(64), 127, wit_con1);
+h_resize!(c07_t_resize_bvd1n64_m129, 7, bvd1(64), 129, wit_con1);
+h_resize!(c07_t_resize_bvd1n64_m192, 7, bvd1(64), 192, wit_con1);
+h_resize!(c07_t_resize_bvd2n65_m0, 7, bvd2(65), 0, wit_con1);
+h_resize!(c07_t_resize_bvd2n65_m1, 7, bvd2(65), 1, wit_con1);
+h_resize!(c07_t_resize_bvd2n65_m63, 7, bvd2(65), 63, wit_con1);
+h_resize!(c07_t_resize_bvd2n65_m65, 7, bvd2(65), 65, wit_con1);
+h_resize!(c07_t_resize_bvd2n65_m127, 7, bvd2(65), 127, wit_con1);
+h_resize!(c07_t_resize_bvd2n65_m128, 7, bvd2(65), 128, wit_con1);
+h_resize!(c07_t_resize_bvd2n65_m129, 7, bvd2(65), 129, wit_con1);
+h_resize!(c07_t_resize_bvd2n65_m192, 7, bvd2(65), 192, wit_con1);
+h_resize!(c07_t_resize_bvd2n127_m0, 7, bvd2(127), 0, wit_con1);
+h_resize!(c07_t_resize_bvd2n127_m1, 7, bvd2(127), 1, wit_con1);
+h_resize!(c07_t_resize_bvd2n127_m63, 7, bvd2(127), 63, wit_con1);
+h_resize!(c07_t_resize_bvd2n127_m64, 7, bvd2(127), 64, wit_con1);
+h_resize!(c07_t_resize_bvd2n127_m65, 7, bvd2(127), 65, wit_con1);
+h_resize!(c07_t_resize_bvd2n127_m127, 7, bvd2(127), 127, wit_con1);
+h_resize!(c07_t_resize_bvd2n127_m128, 7, bvd2(127), 128, wit_con1);
+h_resize!(c07_t_resize_bvd2n127_m129, 7, bvd2(127), 129, wit_con1);
+h_resize!(c07_t_resize_bvd2n127_m192, 7, bvd2(127), 192, wit_con1);
+h_resize!(c07_t_resize_bvd2n128_m1, 7, bvd2(128), 1, wit_con1);
+h_resize!(c07_t_resize_bvd2n128_m63, 7, bvd2(128), 63, wit_con1);
+h_resize!(c07_t_resize_bvd2n128_m64, 7, bvd2(128), 64, wit_con1);
+h_resize!(c07_t_resize_bvd2n128_m65, 7, bvd2(128), 65, wit_con1);
+h_resize!(c07_t_resize_bvd2n128_m127, 7, bvd2(128), 127, wit_con1);
+h_resize!(c07_t_resize_bvd2n128_m128, 7, bvd2(128), 128, wit_con1);
+h_resize!(c07_t_resize_bvfixn1_m127, 7, bvfix(1), 127, wit_con1);
+h_resize!(c07_t_resize_bvfixn127_m129, 7, bvfix(127), 129, wit_con1);
+h_resize!(c07_t_resize_bvfixn128_m130, 7, bvfix(128), 130, wit_con1);
+h_resize!(c07_t_resize_bvfixn3_m200, 7, bvfix(3), 200, wit_con1);
+h_resize!(c07_t_resize_bvfixn128_m64, 7, bvfix(128), 64, wit_con1);
+
+h_truncate!(c07_q_truncate_bvd3n130_m60, 7, bvd3(130), 60, wit_con1);
+h_truncate!(c07_q_truncate_bvd2n128_m64, 7, bvd2(128), 64, wit_con1);
+h_truncate!(c07_q_truncate_bvd2n65_m64, 7, bvd2(65), 64, wit_con1);
+h_truncate!(c07_q_truncate_bvd1n64_m0, 7, bvd1(64), 0, wit_con1);
+h_truncate!(c07_q_truncate_bvd2n70_m70, 7, bvd2(70), 70, wit_con1);
+h_truncate!(c07_q_truncate_bvd1n10_m200, 7, bvd1(10), 200, wit_con1);
+h_truncate!(c07_q_truncate_bvfixn100_m50, 7, bvfix(100), 50, wit_con1);
+h_truncate!(c07_q_truncate_bvdyn3n130_m128, 7, bvdyn3(130), 128, wit_con1);
+h_truncate!(c07_q_truncate_bvdyn3n130_m200, 7, bvdyn3(130), 200, wit_con1);
+h_truncate!(c07_t_truncate_bvd3n192_m191, 7, bvd3(192), 191, wit_con1);
+h_truncate!(c07_t_truncate_bvfixn128_m0, 7, bvfix(128), 0, wit_con1);
+h_sign_extend!(c07_q_signext_bvd1n60_m130, 7, bvd1(60), 130, wit_con1);
+h_sign_extend!(c07_q_signext_bvd1n64_m65, 7, bvd1(64), 65, wit_con1);
+h_sign_extend!(c07_q_signext_bvd2n64_m128, 7, bvd2(64), 128, wit_con1);
+h_sign_extend!(c07_q_signext_bvd1n0_m70, 7, bvd1(0), 70, wit_con1);
+h_sign_extend!(c07_q_signext_bvd2n128_m192, 7, bvd2(128), 192, wit_con1);
+h_sign_extend!(c07_q_signext_bvd2n100_m50, 7, bvd2(100), 50, wit_con1);
+h_sign_extend!(c07_q_signext_bvd1n1_m64, 7, bvd1(1), 64, wit_con1);
+h_sign_extend!(c07_q_signext_bvfixn100_m128, 7, bvfix(100), 128, wit_con1);
+h_sign_extend!(c07_q_signext_bvfixn128_m130, 7, bvfix(128), 130, wit_con1);
+h_sign_extend!(c07_q_signext_bvfixn0_m129, 7, bvfix(0), 129, wit_con1);
+h_sign_extend!(c07_q_signext_bvdyn3n100_m192, 7, bvdyn3(100), 192, wit_con1);
+h_sign_extend!(c07_q_signext_bvdyn3n129_m100, 7, bvdyn3(129), 100, wit_con1);
+h_sign_extend!(c07_t_signext_bvd3n65_m192, 7, bvd3(65), 192, wit_con1);
+h_sign_extend!(c07_t_signext_bvfixn1_m192, 7, bvfix(1), 192, wit_con1);
+h_sign_extend!(c07_t_signext_bvdyn3n128_m129, 7, bvdyn3(128), 129, wit_con1);
+
+h_append!(c07_q_append_bvd1n60_f8x2n10, 12, bvd1(60), f8x2(10), 256, wit_con2);
+h_append!(c07_q_append_bvd1n64_bvd2n100, 12, bvd1(64), bvd2(100), 256, wit_con2);
+h_append!(c07_q_append_bvd1n0_f8x2n0, 12, bvd1(0), f8x2(0), 256, wit_con2);
+h_append!(c07_q_append_bvd1n0_f64x2n128, 12, bvd1(0), f64x2(128), 256, wit_con2);
+h_append!(c07_q_append_bvd1n64_f8x1n0, 12, bvd1(64), f8x1(0), 256, wit_con2);
+h_append!(c07_q_append_bvd0n0_f8x2n16, 12, bvd0(0), f8x2(16), 256, wit_con2);
+h_append!(c07_q_append_bvd2n64_f64x2n64, 12, bvd2(64), f64x2(64), 256, wit_con2);
+h_append!(c07_q_append_bvd2n70_bvfixn50, 12, bvd2(70), bvfix(50), 256, wit_con2);
+h_append!(c07_q_append_bvd2n128_f8x1n1, 12, bvd2(128), f8x1(1), 256, wit_con2);
+h_append!(c07_q_append_bvd2n127_bvdyn2n65, 12, bvd2(127), bvdyn2(65), 256, wit_con2);
+h_append!(c07_q_append_bvd3n1_bvd3n191, 12, bvd3(1), bvd3(191), 256, wit_con2);
+h_append!(c07_q_append_bvd1n63_f16x2n17, 12, bvd1(63), f16x2(17), 256, wit_con2);
+h_append!(c07_q_append_bvd3n128_f64x1n64, 12, bvd3(128), f64x1(64), 256, wit_con2);
+h_append!(c07_q_append_bvd1n1_bvd1n63, 12, bvd1(1), bvd1(63), 256, wit_con2);
+h_append!(c07_q_append_bvfixn120_f8x2n16, 12, bvfix(120), f8x2(16), 256, wit_con2);
+h_append!(c07_q_append_bvfixn100_f8x2n16, 12, bvfix(100), f8x2(16), 256, wit_con2);
+h_append!(c07_t_append_bvfixn128_f8x1n1, 12, bvfix(128), f8x1(1), 256, wit_con2);
+h_append!(c07_q_append_bvfixn128_bvfixn0, 12, bvfix(128), bvfix(0), 256, wit_con2);
+h_append!(c07_q_append_bvfixn0_bvdyn3n129, 12, bvfix(0), bvdyn3(129), 256, wit_con2);
+h_append!(c07_q_append_bvfixn64_bvfixn64, 12, bvfix(64), bvfix(64), 256, wit_con2);
+h_append!(c07_q_append_bvfixn64_f64x2n65, 12, bvfix(64), f64x2(65), 256, wit_con2);
+h_append!(c07_q_append_bvfixn0_f8x1n0, 12, bvfix(0), f8x1(0), 256, wit_con2);
+h_append!(c07_q_append_bvdyn2n100_bvfixn28, 12, bvdyn2(100), bvfix(28), 256, wit_con2);
+h_append!(c07_q_append_bvdyn3n128_bvd1n64, 12, bvdyn3(128), bvd1(64), 256, wit_con2);
+h_append!(c07_q_append_bvdyn3n129_f8x3n24, 12, bvdyn3(129), f8x3(24), 256, wit_con2);
+h_append!(c07_q_append_bvfixn127_bvd1n2, 12, bvfix(127), bvd1(2), 256, wit_con2);
+h_append!(c07_t_append_bvd1n0_f8x2n0, 12, bvd1(0), f8x2(0), 256, wit_con2);
+h_append!(c07_t_append_bvd1n0_f8x1n1, 12, bvd1(0), f8x1(1), 256, wit_con2);
+h_append!(c07_t_append_bvd1n0_f8x2n7, 12, bvd1(0), f8x2(7), 256, wit_con2);
+h_append!(c07_t_append_bvd1n0_f8x2n8, 12, bvd1(0), f8x2(8), 256, wit_con2);
+h_append!(c07_t_append_bvd1n0_f16x1n9, 12, bvd1(0), f16x1(9), 256, wit_con2);
+h_append!(c07_t_append_bvd1n0_bvd1n63, 12, bvd1(0), bvd1(63), 256, wit_con2);
+h_append!(c07_t_append_bvd1n0_f64x1n64, 12, bvd1(0), f64x1(64), 256, wit_con2);
+h_append!(c07_t_append_bvd1n0_bvfixn65, 12, bvd1(0), bvfix(65), 256, wit_con2);
+h_append!(c07_t_append_bvd1n0_f64x2n128, 12, bvd1(0), f64x2(128), 256, wit_con2);
+h_append!(c07_t_append_bvd1n1_f8x2n0, 12, bvd1(1), f8x2(0), 256, wit_con2);
+h_append!(c07_t_append_bvd1n1_f8x1n1, 12, bvd1(1), f8x1(1), 256, wit_con2);
+h_append!(c07_t_append_bvd1n1_f8x2n7, 12, bvd1(1), f8x2(7), 256, wit_con2);
+h_append!(c07_t_append_bvd1n1_f8x2n8, 12, bvd1(1), f8x2(8), 256, wit_con2);
+h_append!(c07_t_append_bvd1n1_f16x1n9, 12, bvd1(1), f16x1(9), 256, wit_con2);
+h_append!(c07_t_append_bvd1n1_bvd1n63, 12, bvd1(1), bvd1(63), 256, wit_con2);
+h_append!(c07_t_append_bvd1n1_f64x1n64, 12, bvd1(1), f64x1(64), 256, wit_con2);
+h_append!(c07_t_append_bvd1n1_bvfixn65, 12, bvd1(1), bvfix(65), 256, wit_con2);
+h_append!(c07_t_append_bvd1n1_f64x2n128, 12, bvd1(1), f64x2(128), 256, wit_con2);
+h_append!(c07_t_append_bvd1n63_f8x2n0, 12, bvd1(63), f8x2(0), 256, wit_con2);
+h_append!(c07_t_append_bvd1n63_f8x1n1, 12, bvd1(63), f8x1(1), 256, wit_con2);
+h_append!(c07_t_append_bvd1n63_f8x2n7, 12, bvd1(63), f8x2(7), 256, wit_con2);
+h_append!(c07_t_append_bvd1n63_f8x2n8, 12, bvd1(63), f8x2(8), 256, wit_con2);
+h_append!(c07_t_append_bvd1n63_f16x1n9, 12, bvd1(63), f16x1(9), 256, wit_con2);
+h_append!(c07_t_append_bvd1n63_bvd1n63, 12, bvd1(63), bvd1(63), 256, wit_con2);
+h_append!(c07_t_append_bvd1n63_f64x1n64, 12, bvd1(63), f64x1(64), 256, wit_con2);
+h_append!(c07_t_append_bvd1n63_bvfixn65, 12, bvd1(63), bvfix(65), 256, wit_con2);
+h_append!(c07_t_append_bvd1n63_f64x2n128, 12, bvd1(63), f64x2(128), 256, wit_con2);
+h_append!(c07_t_append_bvd1n64_f8x2n0, 12, bvd1(64), f8x2(0), 256, wit_con2);
+h_append!(c07_t_append_bvd1n64_f8x1n1, 12, bvd1(64), f8x1(1), 256, wit_con2);
+h_append!(c07_t_append_bvd1n64_f8x2n7, 12, bvd1(64), f8x2(7), 256, wit_con2);
+h_append!(c07_t_append_bvd1n64_f8x2n8, 12, bvd1(64), f8x2(8), 256, wit_con2);
+h_append!(c07_t_append_bvd1n64_f16x1n9, 12, bvd1(64), f16x1(9), 256, wit_con2);
+h_append!(c07_t_append_bvd1n64_bvd1n63, 12, bvd1(64), bvd1(63), 256, wit_con2);
+h_append!(c07_t_append_bvd1n64_f64x1n64, 12, bvd1(64), f64x1(64), 256, wit_con2);
+h_append!(c07_t_append_bvd1n64_bvfixn65, 12, bvd1(64), bvfix(65), 256, wit_con2);
+h_append!(c07_t_append_bvd1n64_f64x2n128, 12, bvd1(64), f64x2(128), 256, wit_con2);
+h_append!(c07_t_append_bvd2n65_f8x2n0, 12, bvd2(65), f8x2(0), 256, wit_con2);
+h_append!(c07_t_append_bvd2n65_f8x1n1, 12, bvd2(65), f8x1(1), 256, wit_con2);
+h_append!(c07_t_append_bvd2n65_f8x2n7, 12, bvd2(65), f8x2(7), 256, wit_con2);
+h_append!(c07_t_append_bvd2n65_f8x2n8, 12, bvd2(65), f8x2(8), 256, wit_con2);
+h_append!(c07_t_append_bvd2n65_f16x1n9, 12, bvd2(65), f16x1(9), 256, wit_con2);
+h_append!(c07_t_append_bvd2n65_bvd1n63, 12, bvd2(65), bvd1(63), 256, wit_con2);
+h_append!(c07_t_append_bvd2n65_f64x1n64, 12, bvd2(65), f64x1(64), 256, wit_con2);
+h_append!(c07_t_append_bvd2n65_bvfixn65, 12, bvd2(65), bvfix(65), 256, wit_con2);
+h_append!(c07_t_append_bvd2n65_f64x2n128, 12, bvd2(65), f64x2(128), 256, wit_con2);
+h_append!(c07_t_append_bvd2n127_f8x2n0, 12, bvd2(127), f8x2(0), 256, wit_con2);
+h_append!(c07_t_append_bvd2n127_f8x1n1, 12, bvd2(127), f8x1(1), 256, wit_con2);
+h_append!(c07_t_append_bvd2n127_f8x2n7, 12, bvd2(127), f8x2(7), 256, wit_con2);
+h_append!(c07_t_append_bvd2n127_f8x2n8, 12, bvd2(127), f8x2(8), 256, wit_con2);
+h_append!(c07_t_append_bvd2n127_f16x1n9, 12, bvd2(127), f16x1(9), 256, wit_con2);
+h_append!(c07_t_append_bvd2n127_bvd1n63, 12, bvd2(127), bvd1(63), 256, wit_con2);
+h_append!(c07_t_append_bvd2n127_f64x1n64, 12, bvd2(127), f64x1(64), 256, wit_con2);
+h_append!(c07_t_append_bvd2n127_bvfixn65, 12, bvd2(127), bvfix(65), 256, wit_con2);
+h_append!(c07_t_append_bvd2n127_f64x2n128, 12, bvd2(127), f64x2(128), 256, wit_con2);
+h_append!(c07_t_append_bvd2n128_f8x2n0, 12, bvd2(128), f8x2(0), 256, wit_con2);
+h_append!(c07_t_append_bvd2n128_f8x1n1, 12, bvd2(128), f8x1(1), 256, wit_con2);
+h_append!(c07_t_append_bvd2n128_f8x2n7, 12, bvd2(128), f8x2(7), 256, wit_con2);
+h_append!(c07_t_append_bvd2n128_f8x2n8, 12, bvd2(128), f8x2(8), 256, wit_con2);
+h_append!(c07_t_append_bvd2n128_f16x1n9, 12, bvd2(128), f16x1(9), 256, wit_con2);
+h_append!(c07_t_append_bvd2n128_bvd1n63, 12, bvd2(128), bvd1(63), 256, wit_con2);
+h_append!(c07_t_append_bvd2n128_f64x1n64, 12, bvd2(128), f64x1(64), 256, wit_con2);
+h_append!(c07_t_append_bvd2n128_bvfixn65, 12, bvd2(128), bvfix(65), 256, wit_con2);
+h_append!(c07_t_append_bvd2n128_f64x2n128, 12, bvd2(128), f64x2(128), 256, wit_con2);
+h_append!(c07_t_append_bvfixn1_f64x2n127, 12, bvfix(1), f64x2(127), 256, wit_con2);
+h_append!(c07_t_append_bvfixn1_f64x2n128, 12, bvfix(1), f64x2(128), 256, wit_con2);
+h_append!(c07_t_append_bvfixn121_f8x1n7, 12, bvfix(121), f8x1(7), 256, wit_con2);
+h_append!(c07_t_append_bvfixn121_f8x1n8, 12, bvfix(121), f8x1(8), 256, wit_con2);
+h_append!(c07_t_append_bvfixn64_bvd1n64, 12, bvfix(64), bvd1(64), 256, wit_con2);
+h_append!(c07_t_append_bvfixn65_bvd1n64, 12, bvfix(65), bvd1(64), 256, wit_con2);
+h_append!(c07_t_append_bvfixn128_f64x3n64, 12, bvfix(128), f64x3(64), 256, wit_con2);
+
+h_prepend!(c07_q_prepend_bvd1n60_f8x2n10, 12, bvd1(60), f8x2(10), 256, wit_con2);
+h_prepend!(c07_q_prepend_bvd1n64_bvd2n100, 12, bvd1(64), bvd2(100), 256, wit_con2);
+h_prepend!(c07_q_prepend_bvd1n0_f8x2n0, 12, bvd1(0), f8x2(0), 256, wit_con2);
+h_prepend!(c07_q_prepend_bvd1n0_f64x2n128, 12, bvd1(0), f64x2(128), 256, wit_con2);
+h_prepend!(c07_q_prepend_bvd1n64_f8x1n0, 12, bvd1(64), f8x1(0), 256, wit_con2);
+h_prepend!(c07_q_prepend_bvd0n0_f8x2n16, 12, bvd0(0), f8x2(16), 256, wit_con2);
+h_prepend!(c07_q_prepend_bvd2n64_f64x2n64, 12, bvd2(64), f64x2(64), 256, wit_con2);
+h_prepend!(c07_q_prepend_bvd2n70_bvfixn50, 12, bvd2(70), bvfix(50), 256, wit_con2);
+h_prepend!(c07_q_prepend_bvd2n128_f8x1n1, 12, bvd2(128), f8x1(1), 256, wit_con2);
+h_prepend!(c07_q_prepend_bvd2n127_bvdyn2n65, 12, bvd2(127), bvdyn2(65), 256, wit_con2);
+h_prepend!(c07_q_prepend_bvd1n63_f16x2n17, 12, bvd1(63), f16x2(17), 256, wit_con2);
+h_prepend!(c07_q_prepend_bvd3n100_f64x1n64, 12, bvd3(100), f64x1(64), 256, wit_con2);
+h_prepend!(c07_q_prepend_bvfixn120_f8x2n16, 12, bvfix(120), f8x2(16), 256, wit_con2);
+h_prepend!(c07_q_prepend_bvfixn100_f8x2n16, 12, bvfix(100), f8x2(16), 256, wit_con2);
+h_prepend!(c07_q_prepend_bvfixn128_f8x1n1, 12, bvfix(128), f8x1(1), 256, wit_con2);
+h_prepend!(c07_q_prepend_bvfixn5_bvdyn3n130, 12, bvfix(5), bvdyn3(130), 256, wit_con2);
+h_prepend!(c07_q_prepend_bvfixn0_f8x2n0, 12, bvfix(0), f8x2(0), 256, wit_con2);
+h_prepend!(c07_q_prepend_bvfixn128_bvd1n0, 12, bvfix(128), bvd1(0), 256, wit_con2);
+h_prepend!(c07_q_prepend_bvfixn64_bvfixn64, 12, bvfix(64), bvfix(64), 256, wit_con2);
+h_prepend!(c07_t_prepend_bvd1n0_f8x1n1, 12, bvd1(0), f8x1(1), 256, wit_con2);
+h_prepend!(c07_t_prepend_bvd1n0_f8x2n7, 12, bvd1(0), f8x2(7), 256, wit_con2);
+h_prepend!(c07_t_prepend_bvd1n0_f8x2n8, 12, bvd1(0), f8x2(8), 256, wit_con2);
+h_prepend!(c07_t_prepend_bvd1n0_bvd1n63, 12, bvd1(0), bvd1(63), 256, wit_con2);
+h_prepend!(c07_t_prepend_bvd1n0_f64x1n64, 12, bvd1(0), f64x1(64), 256, wit_con2);
+h_prepend!(c07_t_prepend_bvd1n0_bvfixn65, 12, bvd1(0), bvfix(65), 256, wit_con2);
+h_prepend!(c07_t_prepend_bvd1n1_f8x1n1, 12, bvd1(1), f8x1(1), 256, wit_con2);
+h_prepend!(c07_t_prepend_bvd1n1_f8x2n7, 12, bvd1(1), f8x2(7), 256, wit_con2);
+h_prepend!(c07_t_prepend_bvd1n1_f8x2n8, 12, bvd1(1), f8x2(8), 256, wit_con2);
+h_prepend!(c07_t_prepend_bvd1n1_bvd1n63, 12, bvd1(1), bvd1(63), 256, wit_con2);
+h_prepend!(c07_t_prepend_bvd1n1_f64x1n64, 12, bvd1(1), f64x1(64), 256, wit_con2);
+h_prepend!(c07_t_prepend_bvd1n1_bvfixn65, 12, bvd1(1), bvfix(65), 256, wit_con2);
+h_prepend!(c07_t_prepend_bvd1n1_f64x2n128, 12, bvd1(1), f64x2(128), 256, wit_con2);
+h_prepend!(c07_t_prepend_bvd1n63_f8x1n1, 12, bvd1(63), f8x1(1), 256, wit_con2);
+h_prepend!(c07_t_prepend_bvd1n63_f8x2n7, 12, bvd1(63), f8x2(7), 256, wit_con2);
+h_prepend!(c07_t_prepend_bvd1n63_f8x2n8, 12, bvd1(63), f8x2(8), 256, wit_con2);
+h_prepend!(c07_t_prepend_bvd1n63_bvd1n63, 12, bvd1(63), bvd1(63), 256, wit_con2);
+h_prepend!(c07_t_prepend_bvd1n63_f64x1n64, 12, bvd1(63), f64x1(64), 256, wit_con2);
+h_prepend!(c07_t_prepend_bvd1n63_bvfixn65, 12, bvd1(63), bvfix(65), 256, wit_con2);
+h_prepend!(c07_t_prepend_bvd1n63_f64x2n128, 12, bvd1(63), f64x2(128), 256, wit_con2);
+h_prepend!(c07_t_prepend_bvd1n64_f8x1n1, 12, bvd1(64), f8x1(1), 256, wit_con2);
+h_prepend!(c07_t_prepend_bvd1n64_f8x2n7, 12, bvd1(64), f8x2(7), 256, wit_con2);
+h_prepend!(c07_t_prepend_bvd1n64_f8x2n8, 12, bvd1(64), f8x2(8), 256, wit_con2);
+h_prepend!(c07_t_prepend_bvd1n64_bvd1n63, 12, bvd1(64), bvd1(63), 256, wit_con2);
+h_prepend!(c07_t_prepend_bvd1n64_f64x1n64, 12, bvd1(64), f64x1(64), 256, wit_con2);
+h_prepend!(c07_t_prepend_bvd1n64_bvfixn65, 12, bvd1(64), bvfix(65), 256, wit_con2);
+h_prepend!(c07_t_prepend_bvd1n64_f64x2n128, 12, bvd1(64), f64x2(128), 256, wit_con2);
+h_prepend!(c07_t_prepend_bvd2n65_f8x1n1, 12, bvd2(65), f8x1(1), 256, wit_con2);
+h_prepend!(c07_t_prepend_bvd2n65_f8x2n7, 12, bvd2(65), f8x2(7), 256, wit_con2);
+h_prepend!(c07_t_prepend_bvd2n65_f8x2n8, 12, bvd2(65), f8x2(8), 256, wit_con2);
+h_prepend!(c07_t_prepend_bvd2n65_bvd1n63, 12, bvd2(65), bvd1(63), 256, wit_con2);
+h_prepend!(c07_t_prepend_bvd2n65_f64x1n64, 12, bvd2(65), f64x1(64), 256, wit_con2);
+h_prepend!(c07_t_prepend_bvd2n65_bvfixn65, 12, bvd2(65), bvfix(65), 256, wit_con2);
+h_prepend!(c07_t_prepend_bvd2n65_f64x2n128, 12, bvd2(65), f64x2(128), 256, wit_con2);
+h_prepend!(c07_t_prepend_bvd2n128_f8x2n7, 12, bvd2(128), f8x2(7), 256, wit_con2);
+h_prepend!(c07_t_prepend_bvd2n128_f8x2n8, 12, bvd2(128), f8x2(8), 256, wit_con2);
+h_prepend!(c07_t_prepend_bvd2n128_bvd1n63, 12, bvd2(128), bvd1(63), 256, wit_con2);
+h_prepend!(c07_t_prepend_bvd2n128_f64x1n64, 12, bvd2(128), f64x1(64), 256, wit_con2);
+h_prepend!(c07_t_prepend_bvd2n128_bvfixn65, 12, bvd2(128), bvfix(65), 256, wit_con2);
+h_prepend!(c07_t_prepend_bvd2n128_f64x2n128, 12, bvd2(128), f64x2(128), 256, wit_con2);
+h_prepend!(c07_t_prepend_bvfixn1_f64x2n127, 12, bvfix(1), f64x2(127), 256, wit_con2);
+h_prepend!(c07_t_prepend_bvfixn1_f64x2n128, 12, bvfix(1), f64x2(128), 256, wit_con2);
+h_prepend!(c07_t_prepend_bvfixn121_f8x1n7, 12, bvfix(121), f8x1(7), 256, wit_con2);
+h_prepend!(c07_t_prepend_bvfixn121_f8x1n8, 12, bvfix(121), f8x1(8), 256, wit_con2);
+h_prepend!(c07_t_prepend_bvfixn65_bvd1n64, 12, bvfix(65), bvd1(64), 256, wit_con2);
+
+h_insert!(c07_q_insert_bvd1n60_i30_f8x2n10, 12, bvd1(60), 30, f8x2(10), 256, wit_ins_con);
+h_insert!(c07_q_insert_bvd1n64_i0_bvd1n64, 12, bvd1(64), 0, bvd1(64), 256, wit_ins_con);
+h_insert!(c07_q_insert_bvd2n128_i64_f64x1n64, 12, bvd2(128), 64, f64x1(64), 256, wit_ins_con);
+h_insert!(c07_q_insert_bvd2n100_i100_f8x3n24, 12, bvd2(100), 100, f8x3(24), 256, wit_ins_con);
+h_insert!(c07_q_insert_bvd2n70_i65_bvfixn0, 12, bvd2(70), 65, bvfix(0), 256, wit_ins_con);
+h_insert!(c07_q_insert_bvd3n130_i1_f16x2n31, 12, bvd3(130), 1, f16x2(31), 256, wit_ins_con);
+h_insert!(c07_q_insert_bvd1n0_i0_f8x2n9, 12, bvd1(0), 0, f8x2(9), 256, wit_ins_con);
+h_insert!(c07_q_insert_bvfixn120_i60_f8x2n16, 12, bvfix(120), 60, f8x2(16), 256, wit_ins_con);
+h_insert!(c07_q_insert_bvfixn100_i37_f8x1n3, 12, bvfix(100), 37, f8x1(3), 256, wit_ins_con);
+h_insert!(c07_t_insert_bvfixn100_i37_f8x2n16, 12, bvfix(100), 37, f8x2(16), 256, wit_ins_con);
+h_insert!(c07_q_insert_bvfixn128_i128_f8x1n1, 12, bvfix(128), 128, f8x1(1), 256, wit_ins_con);
+h_insert!(c07_q_insert_bvfixn128_i0_f8x1n1, 12, bvfix(128), 0, f8x1(1), 256, wit_ins_con);
+h_insert!(c07_q_insert_bvdyn2n100_i100_f8x2n0, 12, bvdyn2(100), 100, f8x2(0), 256, wit_ins_con);
+h_insert!(c07_t_insert_bvd2n128_i127_bvd1n64, 12, bvd2(128), 127, bvd1(64), 256, wit_ins_con);
+h_insert!(c07_t_insert_bvd1n64_i64_f64x2n128, 12, bvd1(64), 64, f64x2(128), 256, wit_ins_con);
+h_insert!(c07_t_insert_bvfixn64_i64_bvdyn3n129, 12, bvfix(64), 64, bvdyn3(129), 256, wit_ins_con);
+h_insert!(c07_t_insert_bvfixn128_i64_bvfixn0, 12, bvfix(128), 64, bvfix(0), 256, wit_ins_con);
+
+h_extend_bits!(c07_q_extend_bvd1n62_k4, 8, bvd1(62), 4, 256, wit_con1);
+h_extend_bits!(c07_q_extend_bvd1n0_k0, 4, bvd1(0), 0, 256, wit_con1);
+h_extend_bits!(c07_q_extend_bvd2n64_k8, 12, bvd2(64), 8, 256, wit_con1);
+h_extend_bits!(c07_q_extend_bvd2n125_k8, 12, bvd2(125), 8, 256, wit_con1);
+h_extend_bits!(c07_q_extend_bvd0n0_k3, 7, bvd0(0), 3, 256, wit_con1);
+h_extend_bits!(c07_q_extend_bvfixn120_k8, 12, bvfix(120), 8, 256, wit_con1);
+h_extend_bits!(c07_q_extend_bvfixn128_k1, 5, bvfix(128), 1, 256, wit_con1);
+h_extend_bits!(c07_q_extend_bvfixn0_k0, 4, bvfix(0), 0, 256, wit_con1);
+h_extend_bits!(c07_t_extend_bvd1n64_k1, 5, bvd1(64), 1, 256, wit_con1);
+h_extend_bits!(c07_t_extend_bvd3n190_k8, 12, bvd3(190), 8, 256, wit_con1);
+h_extend_bits!(c07_t_extend_bvfixn100_k8, 12, bvfix(100), 8, 256, wit_con1);
+h_extend_iter!(c07_q_extend_bvd1n60_f8x2n10, 14, bvd1(60), f8x2(10), 256, wit_con2);
+h_extend_iter!(c07_q_extend_bvd2n120_bvd1n9, 13, bvd2(120), bvd1(9), 256, wit_con2);
+h_extend_iter!(c07_q_extend_bvfixn110_f8x2n10, 14, bvfix(110), f8x2(10), 256, wit_con2);
+h_extend_iter!(c07_t_extend_bvd1n64_bvfixn3, 7, bvd1(64), bvfix(3), 256, wit_con2);
